@@ -5,7 +5,9 @@ from vlib import sh_str, parse_sh, doc_str, kb
 RULE = ("correspondence: merger on all 103041 ordered level-1 pairs (both orders) and random related deep pairs; from_sources on "
         "document pairs. oracle on the implementation: idempotence from_sources([d,d])==from_str(d); null absorption on both "
         "sides == optional form; order-insensitivity by witness documents of either result (validated by Sem.mem) checked "
-        "against the other; object/array/scalar structure equations recomputed from from_sources of the parts. non-trivial = "
+        "against the other; object/array/scalar structure equations recomputed from from_sources of the parts, and at the shape "
+        "level on single-member objects over all level-1 member shapes (one-sided member = optional form, common member = the "
+        "implementation's own merger of the two). non-trivial = "
         "pair of distinct documents/shapes whose merge is a container; distinct = distinct case line")
 ASSUMPTIONS = ["documents rendered canonically", "as_optional recomputed on the check side by flipping the top flag"]
 
@@ -57,6 +59,29 @@ def run(ctx):
         if not ok:
             ctx.fail("the two merge orders do not admit the same documents", l, {"document": w, "this order": x, "other order": y})
     ctx.notes["order_witness_checks"] = len(q)
+    # ---- structure equations at the SHAPE level (the theorems' own statements, on the implementation's merger):
+    #      Object{k:x} + Object{}      = Object{k: optional form of x}          (one-sided key, both orders)
+    #      Object{k:x} + Object{k:y}   = Object{k: merger(x, y)}                (common key; merger(x,y) as the
+    #                                                                             implementation itself answers it)
+    ob = lambda t: "O0{6b:%s}" % t
+    q = []
+    for x in l1:
+        q += ["merger\t%s\tO0{}" % ob(sh_str(x)), "merger\tO0{}\t%s" % ob(sh_str(x))]
+    sub = list(range(0, n, 5 if ctx.tier == "quick" else 1))
+    cq = ["merger\t%s\t%s" % (ob(l1s[i]), ob(l1s[j])) for i in sub for j in sub]
+    ro, _ = ctx.correspond(q + cq, "merger on single-member objects (structure equations)", lambda l, r: True)
+    if ro and ro[0] is not None:
+        for i, x in enumerate(l1):
+            exp = "OK " + ob(sh_str(as_opt(x)))
+            for r, l in ((ro[2 * i], q[2 * i]), (ro[2 * i + 1], q[2 * i + 1])):
+                if r != exp:
+                    ctx.fail("a one-sided member does not carry the optional form of its shape", l, {"got": r, "expected": exp})
+        k = len(q)
+        for jj, (i, j) in enumerate([(i, j) for i in sub for j in sub]):
+            inner = res[(i, j)]
+            exp = ("OK " + ob(inner[3:])) if inner.startswith("OK ") else inner
+            if ro[k + jj] != exp:
+                ctx.fail("a common member does not carry the merge of the two member shapes", cq[jj], {"got": ro[k + jj], "expected": exp})
     # random related deep pairs, both orders
     deep = [vlib.rand_shape(ctx.rng, 3) for _ in range(1500 if ctx.tier == "quick" else 30000)]
     rel = [(s, vlib.mutate_shape(ctx.rng, s)) for s in deep] + vlib.structured_pairs(stride=1 if ctx.tier != 'quick' else 3)[::2]
